@@ -39,14 +39,17 @@ Definition ideal_range (k : kind) (cs : list lrec) (a b : akey) (ans : nat -> bo
       ideal_seq k (filter (in_range (s ++ [0]) (e ++ [0])) cs) ans
     end
   | KUnsigned _ | KSigned _ | KFloat _ =>
-    if key_eq k a b then
-      match find_gk (fst (transform k a)) cs with
+    let sk := fst (transform k a) in
+    let ek := fst (transform k b) in
+    match lex_cmp sk ek with
+    | Eq =>
+      match find_gk sk cs with
       | Some l => OSeq [(a, lv l)] 1
       | None => OSeq [] 0
       end
-    else
-      let '(a, b) := if key_gt k a b then (b, a) else (a, b) in
-      ideal_seq k (filter (in_range (fst (transform k a)) (fst (transform k b))) cs) ans
+    | Gt => ideal_seq k (filter (in_range ek sk) cs) ans
+    | Lt => ideal_seq k (filter (in_range sk ek) cs) ans
+    end
   | KCompound _ =>
     match cs with
     | [] => OSeq [] 0
